@@ -51,6 +51,7 @@ type HTTP struct {
 	Req                     *Req
 	Resps                   []Resp
 }
+
 // Group: a URL directive with its own Tags and path-less methods (always rendered grouped).
 type Group struct {
 	Path    string
@@ -351,9 +352,9 @@ func (d *Doc) Expected() *O {
 	var info *O
 
 	type tagAcc struct {
-		o      *O
-		http   []any
-		rpc    []any
+		o    *O
+		http []any
+		rpc  []any
 	}
 	tagMap := map[string]*tagAcc{}
 	var tagOrder []string
